@@ -14,6 +14,8 @@ pub struct SScenario {
 #[derive(Clone, Debug)]
 pub struct SProfile {
     pub w_step: u32,
+    /// steps polled with a nearly exhausted cooperative-scheduling budget (SOp::StepCoop)
+    pub w_stepcoop: u32,
     pub w_drain: u32,
     pub w_request: u32,
     pub w_cancel: u32,
@@ -52,6 +54,7 @@ impl Default for SProfile {
     fn default() -> Self {
         SProfile {
             w_step: 30,
+            w_stepcoop: 0,
             w_drain: 8,
             w_request: 22,
             w_cancel: 8,
@@ -142,6 +145,7 @@ pub fn op_strategy(p: &SProfile) -> BoxedStrategy<Vec<SOp>> {
         }
     };
     add(p.w_step, any::<u16>().prop_map(|sel| SOp::Step { sel }).boxed());
+    add(p.w_stepcoop, (any::<u16>(), 0u8..6).prop_map(|(sel, budget)| SOp::StepCoop { sel, budget }).boxed());
     add(p.w_drain, Just(SOp::Drain).boxed());
     add(p.w_request, request_strategy(p));
     let uc = p.unknown_cancel;
